@@ -151,6 +151,12 @@ pub fn run(a: &Args) -> i32 {
             }
             let modules = match (&res.real, &res.modules) {
                 (RealOutcome::Ok(_), Some(m)) => m,
+                // the generator succeeded but the extractor cannot read a construct of the emitted code: a broken tie (the
+                // IR-based oracles cannot run), not a refusal of the input
+                (RealOutcome::Ok(_), None) => {
+                    rep.disagree(json!({"what": "the emitted tokens could not be read into the IR", "file": "c13.rs"}));
+                    continue;
+                }
                 (other, _) => {
                     rep.fail("generation-failed", json!({"kind": kind.gql, "format": fmt, "outcome": format!("{:?}", other), "schema": text, "query": query}));
                     continue;
@@ -161,7 +167,9 @@ pub fn run(a: &Args) -> i32 {
             for (n, t) in expected_aliases {
                 match find_item(items, "alias", n) {
                     Some(it) if ty_string(&it.items()[3]) == t => {}
-                    other => rep.fail("builtin-alias", json!({"alias": n, "expected": t, "found": other.map(|o| o.render()), "format": fmt})),
+                    // (how the built-in scalars reach their Rust types - aliases emitted per module - is the current
+                    // mechanism, not part of the rule: a difference is a broken tie)
+                    other => rep.disagree(json!({"what": "built-in scalar alias", "alias": n, "expected": t, "found": other.map(|o| o.render()), "format": fmt})),
                 }
             }
             let base_rust = kind.gql.to_string();
